@@ -274,6 +274,21 @@ func pinnedCases() []pinned {
 		resp3.Fields = append(resp3.Fields, &schema.Field{Name: "color", Number: 2, Kind: schema.KEnum, TypeRef: s3.Pkg + ".Color", Card: schema.Optional, Ann: &schema.Ann{Nullable: true}})
 		innerCase("C06", "C06/nullable_enum_null_not_in_enum.json", "both", "c06", "PinService.Do", s3, "nullable_enum_schema")
 	}
+	{
+		s, req, _, m, _ := baseSchema("p0070")
+		m.Verb, m.Path = 1, "/things/{num}"
+		req.Fields = []*schema.Field{fld("num", 1, schema.KBool, schema.Singular)}
+		innerCase("C08", "C08/ts_server_bool_path_param_is_string.json", "both", "c08", "PinService.Do", s, "ts_server_path_params_are_strings")
+		s2, req2, _, m2, _ := baseSchema("p0071")
+		m2.Verb, m2.Path = 1, "/things"
+		req2.Fields = []*schema.Field{{Name: "big", Number: 1, Kind: schema.KInt64, Card: schema.Singular, Ann: &schema.Ann{Query: &schema.Query{Name: "big"}}},
+			{Name: "name", Number: 2, Kind: schema.KString, Card: schema.Singular, Ann: &schema.Ann{Query: &schema.Query{Name: "name"}}}}
+		innerCase("C08", "C08/ts_server_absent_int64_query.json", "both", "c08", "PinService.Do", s2, "ts_server_absent_int64_query_empty_string")
+		s3, _, _, m3, svc3 := baseSchema("p0072")
+		svc3.Headers = []*schema.Header{{Name: "X-Count", Type: "string", Format: "time"}}
+		m3.Headers = []*schema.Header{{Name: "X-Count", Type: "integer", Required: true}}
+		innerCase("C09", "C09/ts_server_validates_service_and_method_header.json", "both", "c08", "PinService.Do", s3, "ts_header_override_not_merged")
+	}
 	// ---- C19 ----
 	rules := func(id string, fields ...*schema.Field) *schema.Schema {
 		pkg := id + ".rules.v1"
